@@ -77,6 +77,23 @@ def translate(src):
             out.append("%s@_typed(%r,%r)" % (ind, rt, ats))
             out.append("%sdef %s(%s):" % (ind, name, ", ".join(names)))
             continue
+        m = re.match(r"def\s+(\w+)\((.*)\):\s*$", s)
+        if m and not ind and re.search(r"(?:^|,)\s*%s\s+\w+" % TYPES, m.group(2)):
+            # a Python-visible def whose parameters carry C types: coerce them like a cpdef, the return value stays an object
+            name, args = m.groups()
+            names, ats = [], []
+            for a in [a.strip() for a in args.split(",") if a.strip()]:
+                default = None
+                if "=" in a:
+                    a, default = [x.strip() for x in a.split("=")]
+                mm = re.match(r"(%s)\s+(\w+)$" % TYPES, a)
+                at, an = (mm.group(1), mm.group(2)) if mm else ("object", a)
+                names.append(an if default is None else "%s=%s" % (an, default))
+                ats.append((an, at))
+            exported.append(name)
+            out.append("%s@_typed('object',%r)" % (ind, ats))
+            out.append("%sdef %s(%s):" % (ind, name, ", ".join(names)))
+            continue
         m = re.match(r"def\s+(\w+)\(", s)
         if m and not ind:
             exported.append(m.group(1))
